@@ -96,7 +96,11 @@ func c01Step(c *core.Ctx) {
 	const rule = "C01-step"
 	treeAddLeaf(c, rule)
 	treeInitCache(c, rule)
-	// node hash and zero hashes
+	nodeHashRule(c, rule)
+}
+
+// nodeHashRule: node hash = keccak(left ‖ right) computed with a hasher of its own, and the zero-hash recurrence.
+func nodeHashRule(c *core.Ctx, rule string) {
 	nt := c.MustFn(rule, "tree", "", "newTreeNode")
 	if nt != nil {
 		lx := core.NewLayout()
